@@ -221,7 +221,8 @@ add("C14", "CH+RX (+ concrete diff)",
     "ranges between the markers; every tag the generator can build from identifier-shaped names is in the documented "
     "format. Per program: one sync+async sample per RPC, unique matching tags, samples compile, request set-up assigns only "
     "real field paths, docstring snippet and metadata entry (names, segments, parameter names vs the emitted client "
-    "signature, per-service host) match the file (concrete).",
+    "signature, per-service host) match the file, one member per oneof, awaitable client calls awaited in asyncio "
+    "samples (concrete).",
     "DESIGN.md section 5 C14",
     "Executing the samples against a server and the TYPES recorded in the metadata are outside the claim; the "
     "docstring comparison ignores blank lines (the formatter may drop them inside string literals, C20).")
@@ -233,8 +234,9 @@ add("C10", "z3 strings + site inventory + multi-seed replay",
     "z3 shows that no two distinguishable elements share a sort key (then it is order-insensitive for EVERY order; key "
     "lambdas of Python sorted() sites are run symbolically on two strings), a raw site (incl. loops over a {% set %} alias "
     "of a set) needs a reviewed justification whose side condition is re-checked, anything else is inconclusive; a battery "
-    "of requests (equal short resource names, five sub-packages, retry codes, three extended-operation services, ...) must "
-    "be byte-identical across hash seeds.",
+    "of requests (equal short resource names, five sub-packages, retry codes, three extended-operation services, a relative "
+    "template directory, ...) must be byte-identical across hash seeds, two working directories and two fake wall clocks; "
+    "every use of clock / randomness / environment / cwd / object identity in the generator is on a reviewed list.",
     "DESIGN.md section 5 C10",
     "The classification is syntactic (AST of gapic/**/*.py, line-based for templates); 3 seeds quick / 8 thorough in the "
     "replay; non-set sources of nondeterminism (time, cwd, environment) are covered by the replay only.",
